@@ -394,9 +394,10 @@ pub fn whale_lite(w: &MinerWorld) -> Vec<MinerLite> {
         .collect()
 }
 
-/// keep the whale's sectors proven: submits a PoSt for all partitions of the whale's currently open
-/// deadline that are not yet posted (reads only that deadline)
-pub fn whale_maintenance(w: &MinerWorld, o: &mut Outcome) {
+/// keep auto-posted miners' sectors proven: submits a PoSt for all partitions of the miner's
+/// currently open deadline that are not yet posted (reads only that deadline). `on_accept` is told
+/// about accepted PoSts of miners under test (with the snapshot taken just before).
+pub fn maintenance(w: &MinerWorld, o: &mut Outcome, on_accept: &mut dyn FnMut(&MinerSnap, u64, &[(u64, Vec<u64>)])) {
     use fvm_ipld_encoding::CborStore;
     for m in w.miners.iter().filter(|m| m.auto_post) {
         let st: fil_actor_miner::State = state(&w.v, &m.addr).unwrap();
@@ -415,9 +416,30 @@ pub fn whale_maintenance(w: &MinerWorld, o: &mut Outcome) {
         if todo.is_empty() {
             continue;
         }
-        let (r, _) = submit_post(&w.v, m, &m.worker, &dl, todo, true);
-        o.count(if r.code.is_success() { "whale_posts_ok" } else { "whale_posts_failed" });
+        let pre = if m.whale { None } else { snap_miner(&w.v, &m.addr) };
+        if let Some(pre) = &pre {
+            // a competent operator first declares its faulty sectors recovered (when still allowed)
+            let faulty: Vec<(u64, u64, Vec<u64>)> = pre.deadlines.iter().enumerate().flat_map(|(di, d)| d.partitions.iter().enumerate().filter(|(_, p)| p.faults.len() > p.recoveries.len()).map(move |(pi, p)| (di as u64, pi as u64, p.faults.difference(&p.recoveries).cloned().collect::<Vec<u64>>()))).filter(|x| x.0 != dl.index && x.0 != (dl.index + 1) % 48).collect();
+            if !faulty.is_empty() {
+                let (r, _) = declare_recovered(&w.v, m, &m.worker, &faulty);
+                o.count(if r.code.is_success() { "auto_recoveries_ok" } else { "auto_recoveries_failed" });
+            }
+        }
+        let pre = if m.whale { None } else { snap_miner(&w.v, &m.addr) };
+        let (r, _) = submit_post(&w.v, m, &m.worker, &dl, todo.clone(), true);
+        if m.whale {
+            o.count(if r.code.is_success() { "whale_posts_ok" } else { "whale_posts_failed" });
+        } else {
+            o.count(if r.code.is_success() { "auto_posts_ok" } else { "auto_posts_failed" });
+            if let (true, Some(pre)) = (r.code.is_success(), &pre) {
+                on_accept(pre, dl.index, &todo);
+            }
+        }
     }
+}
+
+pub fn whale_maintenance(w: &MinerWorld, o: &mut Outcome) {
+    maintenance(w, o, &mut |_, _, _| {});
 }
 
 /// advance to `to` ticking every epoch with scheduled work, giving every auto-posted miner a PoSt
